@@ -40,7 +40,8 @@ def plan(tier):
                 'multi-object multi-client sequences; a cell is (variant, state, symbol, outcome, new state)'
                 % len(SYMBOLS),
         'min_monitor': {'steps_checked': 2000, 'uses_refused': 200, 'uses_succeeded': 20,
-                        'transitions_seen': 30, 'batch_items_checked': 300},
+                        'transitions_seen': 30, 'batch_items_checked': 300,
+                        'attribute_operations_at_states': 1000},
         'assumptions': ['engine behaviour is a function of (store, request, identity) - checked by C11 - '
                         'so closing the state graph covers all sequences of any depth over the alphabet',
                         'Revoke with CA_COMPROMISE may lead Active->Deactivated (inside the allowed relation)'],
@@ -233,6 +234,54 @@ def run_variant(ctx, kind, label):
                         shutil.move(work, keep)
                         states[fpa] = (keep, after)
                         queue.append(fpa)
+        # "only Activate and Revoke change the state": at every reached state, attribute operations in every form on the
+        # attributes that have to do with the lifecycle (dates, State itself) and on a sample of the others, with values in
+        # the past, now and in the future - the State must be what it was
+        from kv.gen import requests as G_
+        lifecycle = [A.ACTIVATION_DATE, A.DEACTIVATION_DATE, A.PROCESS_START_DATE, A.PROTECT_STOP_DATE, A.DESTROY_DATE,
+                     A.COMPROMISE_OCCURRENCE_DATE, A.COMPROMISE_DATE, A.INITIAL_DATE, A.STATE, A.LAST_CHANGE_DATE, A.ARCHIVE_DATE]
+        others = [x for x in G_.SUPPORTED_FACTORY_ATTRS if x not in lifecycle]
+        swept = set()
+        for fp, (path, st) in list(states.items()):
+            if st == 'gone' or st in swept:
+                continue
+            swept.add(st)        # once per lifecycle state (names and groups do not matter here)
+            names = [x for x in lifecycle if x in G_.SUPPORTED_FACTORY_ATTRS] + rng.sample(others, min(4, len(others)))
+            for name in names:
+                values = ([0, 1599999000, 1600000500] if ctx.tier == 'quick' else [0, 1, 1599999000, 1600000000, 1600000500, 2 ** 33]) \
+                    if 'DATE' in name.name else \
+                    ([S.ACTIVE, S.PRE_ACTIVE, S.DEACTIVATED, S.COMPROMISED] if name == A.STATE else [G_.attr_value_for(rng, name)])
+                for value in values:
+                    if value is None:
+                        continue
+                    forms = [('set/2.0', (2, 0), lambda: op_set_attribute(o.uid, name, value)),
+                             ('modify/2.0', (2, 0), lambda: op_modify_attribute_20(o.uid, name, value)),
+                             ('modify/1.x', (1, 2), lambda: op_modify_attribute_1x(o.uid, rig.attr(name, value)))]
+                    for label, version, mk in forms:
+                        work = d + '/work.sqlite'
+                        shutil.copyfile(path, work)
+                        w = rig.Server(work)
+                        try:
+                            try:
+                                res = w.send([mk()], OWNER, version)
+                            except Exception:
+                                ctx.count('symbol_not_encodable')
+                                continue
+                            ctx.ev()
+                            after, _ = read_state(w, o.uid)
+                        finally:
+                            w.close()
+                        ctx.count('steps_checked')
+                        ctx.count('attribute_operations_at_states')
+                        ok = res.error is None and res.ok()
+                        bname = st.name if hasattr(st, 'name') else str(st)
+                        aname = after.name if hasattr(after, 'name') else str(after)
+                        ctx.cell('attr', variant, bname, label, name.value, 'ok' if ok else 'refused')
+                        if after != st:
+                            ctx.violation('%s:%s|%s->%s' % (label.split('/')[0], name.value, bname, aname),
+                                          'state changed %s -> %s by %s of %s = %r (%s)' % (bname, aname, label, name.value, value,
+                                                                                          'success' if ok else 'failed request'),
+                                          {'variant': variant, 'response': res.brief()})
         ctx.count('graph_states', len(states))
         if len(states) >= 60:
             ctx.unsure('state graph of %s not closed within 60 states' % variant)
